@@ -14,13 +14,14 @@
        ([req_safe], not [read_gap]) -- [_partial]: the missing part is exactly the refuted cases. *)
 From Coq Require Import List NArith Bool.
 Import ListNotations.
-From PV Require Import C22.Model C22.Placement C22.Required C22.Access.
+From PV Require Import C22.Model C22.Placement C22.Required C22.Access C22.DepthList.
 Open Scope N_scope.
 
 (* never reads dirty + recorded no cleaner (+ annexed dofs clean on exit under COMPUTE_ANNEXED_DOFS) for
-   every well-placed invoke, every halo depth, all extents, every initial state *)
-Theorem C22_placement_safe : forall cfg cont p, well_placed cfg cont p = true ->
-  forall M e s0, valid_cfg M e -> init_ok cfg M s0 ->
+   every well-placed invoke, every halo depth (at least the deepest literal loop depth mlo of the invoke: smaller
+   depths are not valid configurations), all extents, every initial state *)
+Theorem C22_placement_safe : forall mlo cfg cont p, well_placed mlo cfg cont p = true ->
+  forall M e s0, valid_cfg M e -> mlo <= M -> init_ok cfg M s0 ->
   match run M e p s0 false with
   | Ok s _ => fr s <= fa s /\ (cfg && cont = true -> fann s = true)
   | Invalid => True
@@ -30,7 +31,7 @@ Proof. exact placement_safe_. Qed.
 Print Assumptions C22_placement_safe.
 
 Example C22_placement_nonvacuous :
-  well_placed false true
+  well_placed 1 false true
     [ SHx [SLit 1] true; SLoop [(SLit 1, true)] None;
       SLoop [(SLit 0, true)] (Some (SLit 0, true)); SDirty;
       SHx [SVar false 0 1; SLit 2] false; SLoop [(SVar false 0 1, true)] None ] = true.
@@ -45,6 +46,15 @@ Theorem C22_required_sound_partial : forall cfg rc w k,
   sat (match w with Some c => after_write cfg M c | None => s0 end) (rc_need M e rc).
 Proof. exact required_sound_partial_. Qed.
 Print Assumptions C22_required_sound_partial.
+
+(* the same statement at full strength for the code with the repair of props/C22/fix.patch *)
+Theorem C22_required_sound_fixed : forall cfg rc w k,
+  required_gen true cfg rc w = (false, k) ->
+  forall M e s0, valid_cfg M e -> (cfg = true -> snd s0 = true) ->
+  rc_depth M e rc <= M ->
+  sat (match w with Some c => after_write cfg M c | None => s0 end) (rc_need M e rc).
+Proof. exact required_sound_fixed_. Qed.
+Print Assumptions C22_required_sound_fixed.
 
 Example C22_required_nonvacuous :
   let rc := [plain_depth None 2] in
@@ -76,6 +86,22 @@ Theorem C22_read_access_covers_partial : forall cfg a k t h d ann,
   forall M e, valid_cfg M e -> meets cfg (hr_need M e h) (eval_sd M e d, ann).
 Proof. exact read_access_covers_partial_. Qed.
 Print Assumptions C22_read_access_covers_partial.
+
+(* full strength for the code with the repair of props/C22/fix.patch: there the special-case condition
+   PSyclone evaluates (r_auw) coincides with the kernel kind of the ground truth (t_ghwc) *)
+Theorem C22_read_access_covers_fixed : forall cfg a k t h d ann,
+  lkind_of (r_ub a) (r_ubd a) = Some k -> compat_r cfg a k t = true -> r_auw a = t_ghwc t ->
+  read_access a = Some h -> true_need k t = Some (d, ann) ->
+  forall M e, valid_cfg M e -> meets cfg (hr_need M e h) (eval_sd M e d, ann).
+Proof. exact read_access_covers_fixed_. Qed.
+Print Assumptions C22_read_access_covers_fixed.
+
+Theorem C22_halo_read_false_sound_fixed : forall cfg a k t d ann,
+  lkind_of (r_ub a) (r_ubd a) = Some k -> compat_r cfg a k t = true -> r_auw a = t_ghwc t ->
+  halo_read_access cfg (larg_of a) = Some false -> true_need k t = Some (d, ann) ->
+  forall M e, eval_sd M e d = 0 /\ (ann = true -> cfg = true).
+Proof. exact halo_read_false_sound_fixed_. Qed.
+Print Assumptions C22_halo_read_false_sound_fixed.
 
 Example C22_read_access_nonvacuous :
   let a := {| r_acc := ARead; r_ub := BCellHalo; r_ubd := Some 1; r_disc := false; r_dofkern := false;
@@ -120,3 +146,26 @@ Theorem C22_recorded_no_cleaner : forall cfg w k t,
     <= eval_sd M e (fst (true_after k t)).
 Proof. exact marks_no_cleaner_. Qed.
 Print Assumptions C22_recorded_no_cleaner.
+
+(* _create_depth_list: the aggregated list demands at least what each reader demands (the excluded case --
+   halo depth 1 with a GH_INC reader at maximum depth -- is C22_maxm1_exchange_depth_zero_refuted; an empty
+   list makes code generation fail) *)
+Theorem C22_depth_list_covers_partial : forall hs h M e,
+  In h hs -> valid_cfg M e ->
+  forallb wf hs = true ->
+  (forall x, In x hs -> hd_maxm1 (hr_d x) = false /\ ev M e (hr_d x) <= M) ->
+  create_depth_list hs <> [] ->
+  (2 <= M \/ existsb maxinc hs = false) ->
+  meets0 (rc_need M e (create_depth_list hs)) (hr_need M e h).
+Proof. exact depth_list_covers_partial_. Qed.
+Print Assumptions C22_depth_list_covers_partial.
+
+Example C22_depth_list_nonvacuous :
+  let h1 := {| hr_d := {| hd_max := false; hd_maxm1 := false; hd_var := Some (false, 0); hd_lit := 1; hd_ann := false |};
+               hr_nco := true |} in
+  let h2 := {| hr_d := {| hd_max := false; hd_maxm1 := false; hd_var := None; hd_lit := 2; hd_ann := false |};
+               hr_nco := false |} in
+  forallb wf [h1; h2] = true /\ create_depth_list [h1; h2] <> [] /\ existsb maxinc [h1; h2] = false /\
+  map sd_of_hd (create_depth_list [h1; h2]) = [SVar false 0 1; SLit 1].
+Proof. exact depth_list_nonvacuous. Qed.
+Print Assumptions C22_depth_list_nonvacuous.
